@@ -9,6 +9,7 @@ import (
 	"go/ast"
 	"go/token"
 	"go/types"
+	"golang.org/x/tools/go/packages"
 	"sort"
 	"strings"
 )
@@ -189,6 +190,9 @@ func checkC15(ctx *Ctx, r *Report) {
 	c05NameChanging(ctx, r, eng)
 	r.Floor("transformations analysed", 19)
 	r.Floor("write-set entries", 25)
+	c15GetKnownKey(ctx, r)
+	c05Visitor(ctx, r)
+	c07ConfigOwnership(ctx, r)
 }
 
 // isSelectorTest: cond contains a test of the pass's selector.
@@ -591,4 +595,96 @@ func c15VisitorState(ctx *Ctx, r *Report, eng *effectsEngine) {
 			"Visitor."+f.Name()+" is not re-initialised unconditionally for each schema: objects registered while visiting one package are also added to the schemas visited after it")
 	}
 	r.Floor("visitor state fields", 1)
+}
+
+// ---------------------------------------------------------------------------
+// c15GetKnownKey: orderedmap.Map.Get has no found-flag: for a missing key it returns the zero value. "A transformation
+// whose target does not exist leaves the schemas unchanged" therefore needs every Get to be made on a key known to be
+// present: under a positive Has on the same map and key (enclosing condition or earlier `if !Has { leave }`), or for a
+// reviewed reason. A Get on an unchecked key turns an absent target into an empty object that is then copied, renamed
+// and added.
+var c15GetTable = map[string]string{
+	"internal/ast/compiler.InferEntrypoint.Process":               "the key is the name inferEntrypoint returned, which it took from an object of the same schema.Objects",
+	"internal/ast/compiler.DataqueryIdentification.processSchema": "the key was collected from the objects of the same schema a few lines above (variantObjects)",
+	"internal/jsonschema.GenerateAST":                             "declareDefinition(rootObjectName) just added the object or returned an error",
+	"internal/simplecue.generator.walkCueSchemaWithEnvelope":      "the object was added under that name by the AddObject call just above",
+	"internal/jennies/openapi.Schema.generateSchema":              "the key \"definitions\" is set by the JSON Schema jenny on every document it returns",
+}
+
+func c15GetKnownKey(ctx *Ctx, r *Report) {
+	omapT := ctx.LookupType("internal/orderedmap", "Map")
+	if omapT == nil {
+		r.Undecided("anchor lost: orderedmap.Map")
+		return
+	}
+	n := 0
+	ctx.AllFuncDecls(func(p *packages.Package, fd *ast.FuncDecl, obj *types.Func) {
+		if fd.Body == nil || p.PkgPath == omapT.Obj().Pkg().Path() {
+			return
+		}
+		info := p.TypesInfo
+		parents := parentMap(fd)
+		k := 0
+		ast.Inspect(fd.Body, func(m ast.Node) bool {
+			c, ok := m.(*ast.CallExpr)
+			if !ok || len(c.Args) != 1 {
+				return true
+			}
+			sel, ok := c.Fun.(*ast.SelectorExpr)
+			if !ok || sel.Sel.Name != "Get" {
+				return true
+			}
+			nt := namedOf(info.TypeOf(sel.X))
+			if nt == nil || nt.Origin() != omapT {
+				return true
+			}
+			n++
+			k++
+			recv, key := exprString(sel.X), exprString(c.Args[0])
+			isHas := func(e ast.Expr) (bool, bool) { // (is a Has on this map/key, positive)
+				pos := true
+				e = ast.Unparen(e)
+				if u, ok := e.(*ast.UnaryExpr); ok && u.Op == token.NOT {
+					pos = false
+					e = ast.Unparen(u.X)
+				}
+				hc, ok := e.(*ast.CallExpr)
+				if !ok || len(hc.Args) != 1 {
+					return false, false
+				}
+				hs, ok := hc.Fun.(*ast.SelectorExpr)
+				if !ok || (hs.Sel.Name != "Has" && hs.Sel.Name != "HasObject") || exprString(hc.Args[0]) != key {
+					return false, false
+				}
+				// X.Objects.Has(k) or X.HasObject(k) for a Get on X.Objects
+				if exprString(hs.X) == recv || exprString(hs.X)+".Objects" == recv {
+					return true, pos
+				}
+				return false, false
+			}
+			known := ""
+			for _, ce := range enclosingConds(parents, c) {
+				if is, pos := isHas(ce.stmt.Cond); is && pos != ce.inElse {
+					known = "under " + exprString(ce.stmt.Cond)
+				}
+			}
+			if known == "" {
+				for _, ctl := range controllingIfs(parents, fd, c) {
+					if is, pos := isHas(ctl.Cond); is && !pos {
+						known = "after `if " + exprString(ctl.Cond) + " { leave }`"
+					}
+				}
+			}
+			if known == "" {
+				if why, ok := c15GetTable[ctx.FuncName(obj)]; ok {
+					known = "reviewed: " + why
+				}
+			}
+			r.Check(known != "", "flow/get-known-key", fmt.Sprintf("%s Get #%d on %s", ctx.FuncName(obj), k, recv), c.Pos(), known,
+				fmt.Sprintf("%s reads %s.Get(%s) without knowing that the key is present: the ordered map has no found-flag, a missing key yields an empty value — an absent target is then treated as an empty object (copied, renamed, added) instead of leaving the schemas unchanged", ctx.FuncName(obj), recv, key))
+			return true
+		})
+	})
+	r.Count("orderedmap Get calls outside the orderedmap package", n)
+	r.Floor("orderedmap Get calls outside the orderedmap package", 6)
 }
